@@ -979,4 +979,27 @@ func checkWarnings(p *Program, r *Report, pk *ssa.Package, runner *ssa.Function)
 		r.Undecided("R17.7", "sim.Initialise:input-row", p.Pos(initialise.Pos()), "no write of an input series found")
 	}
 	_ = strings.Contains
+
+	// R17.8: the conversion to the result tree is read-only on the arrays it converts
+	r.Rule("R17.8", "encoding is read-only: no function of io/json (JsonSafeArray, JsonSafeValue and their helpers) may write through an array argument — element stores, mutating ND methods, or writes into the slices Shape()/NewIndex hand out that alias the array's own metadata (effect summaries, interprocedural)")
+	eff := nil2eff(p)
+	nEnc := 0
+	for _, fn := range p.PkgFuncs("io/json") {
+		if fn.Blocks == nil {
+			continue
+		}
+		for k, prm := range fn.Params {
+			if !isNDType(prm.Type()) {
+				continue
+			}
+			nEnc++
+			key := fmt.Sprintf("%s:param:%s", FuncKey(fn), prm.Name())
+			if w := eff.Mutates(fn, k); w != nil {
+				r.Fail("R17.8", key, p.Pos(w.site.Pos()), fmt.Sprintf("%s may modify the array it converts (%s): the results handed to the encoder, and the caller's array, change shape or content while being reported", fn.Name(), w.what))
+			} else {
+				r.OK("R17.8", fmt.Sprintf("%s never writes through `%s`", FuncKey(fn), prm.Name()))
+			}
+		}
+	}
+	r.Floor("R17.8", "array parameters of the JSON conversion", nEnc, 1)
 }
